@@ -15,7 +15,7 @@ let z_of_string (s : string) : z =
   let acc = ref Z0 in
   String.iter (fun c ->
     if c < '0' || c > '9' then failwith "bad decimal";
-    acc := Z.add (Z.mul !acc (z_of_int 10)) (z_of_int (Char.code c - 48))) s;
+    acc := ms_zadd (ms_zmul !acc (z_of_int 10)) (z_of_int (Char.code c - 48))) s;
   !acc
 
 let rec string_of_z (x : z) : string =
@@ -24,7 +24,7 @@ let rec string_of_z (x : z) : string =
   | Zneg p -> "-" ^ string_of_z (Zpos p)
   | Zpos _ ->
     let base = z_of_int 1000000000 in
-    let q = Z.div x base and r = int_of_z (Z.modulo x base) in
+    let q = ms_zdiv x base and r = int_of_z (ms_zmod x base) in
     if q = Z0 then string_of_int r else string_of_z q ^ Printf.sprintf "%09d" r
 
 (* ---- configuration -------------------------------------------------------------------------------- *)
@@ -128,11 +128,11 @@ let fuel = lazy (nat_of_int 300000)
 
 let dur_of (s : string) : z =
   match String.split_on_char ':' s with
-  | [a; b] -> Z.add (Z.mul (z_of_string a) (z_of_int 1000000000)) (z_of_string b)
+  | [a; b] -> ms_zadd (ms_zmul (z_of_string a) (z_of_int 1000000000)) (z_of_string b)
   | _ -> failwith "secs:nanos"
 let dur_text (x : z) : string =
   let base = z_of_int 1000000000 in
-  string_of_z (Z.div x base) ^ ":" ^ string_of_z (Z.modulo x base)
+  string_of_z (ms_zdiv x base) ^ ":" ^ string_of_z (ms_zmod x base)
 
 let backoff_line = function
   | [_; mn; mx; n] ->
